@@ -72,6 +72,8 @@ pub struct St {
 #[derive(Debug, Clone, Copy, PartialEq, Eq, Hash, Serialize, Deserialize)]
 pub enum Rep {
     InFlight,
+    /// a snapshot in state CancelInFlight carrying (or not) open data of time t
+    CancelInFlight(Option<u8>),
     Open(u8),
     Cancelled(u8),
     FullyFilled,
@@ -199,6 +201,9 @@ impl M {
     fn snapshot_order(&self, c: usize, rep: Rep, cfg: &[[u8; 3]]) -> Order<ExchangeIndex, InstrumentIndex, OrderState<AssetIndex, InstrumentIndex>> {
         let state = match rep {
             Rep::InFlight => OrderState::active(OpenInFlight),
+            Rep::CancelInFlight(mt) => OrderState::active(CancelInFlight {
+                order: mt.map(|t| self.open_meta(c, t, cfg[c][(t - 1) as usize])),
+            }),
             Rep::Open(t) => OrderState::active(self.open_meta(c, t, cfg[c][(t - 1) as usize])),
             Rep::Cancelled(t) => OrderState::inactive(Cancelled { id: oid(c), time_exchange: t_plus(t as i64) }),
             Rep::FullyFilled => OrderState::fully_filled(),
@@ -406,6 +411,16 @@ fn input_name(i: &In, cfg_c: &[u8; 3], prev: &Option<Proj>) -> String {
         In::CancelOk => "CancelOk".into(),
         In::CancelErr => "CancelErr".into(),
         In::Rep(Rep::InFlight) => "Snap(OpenInFlight)".into(),
+        In::Rep(Rep::CancelInFlight(None)) => "Snap(CancelInFlight(None))".into(),
+        In::Rep(Rep::CancelInFlight(Some(t))) => {
+            let rel = match prev.and_then(|p| p.meta) {
+                None => "no-held-data",
+                Some((t0, _)) if *t < t0 => "older",
+                Some((t0, _)) if *t == t0 => "same-time",
+                Some(_) => "newer",
+            };
+            format!("Snap(CancelInFlight(Some),{rel})")
+        }
         In::Rep(Rep::Open(t)) => {
             let f = cfg_c[(*t - 1) as usize];
             if f >= QTY {
@@ -452,6 +467,23 @@ fn allowed(prev: &Option<Proj>, input: &In, cfg_c: &[u8; 3]) -> (&'static str, V
             None => ("in-flight-report-on-untracked", vec![None, some(Kind::InFlight, None)]),
             Some(p) => ("in-flight-report-changes-nothing", vec![Some(*p)]),
         },
+        // A cancel-in-flight *report*: the statement does not say it must change anything, but the
+        // order must stay tracked, held data must never move back (R4) and must be delivered data.
+        In::Rep(Rep::CancelInFlight(mt)) => {
+            let m = mt.map(|t| (t, cfg_c[(t - 1) as usize]));
+            match prev {
+                None => ("cancel-in-flight-report-on-untracked", vec![None, some(Kind::Cancelling, None), some(Kind::Cancelling, m)]),
+                Some(p) => {
+                    let mut allow = vec![Some(*p), some(Kind::Cancelling, p.meta)];
+                    if let Some((t, _)) = m {
+                        if p.meta.is_none_or(|(t0, _)| t >= t0) {
+                            allow.push(some(Kind::Cancelling, m));
+                        }
+                    }
+                    ("R4-cancel-in-flight-report-keeps-order-and-never-older-data", allow)
+                }
+            }
+        }
         In::Rep(Rep::Open(t)) => {
             let f = cfg_c[(*t - 1) as usize];
             let m = Some((*t, f));
@@ -514,6 +546,12 @@ impl Model for M {
             }
             v.push(Act::CancelSent(c));
             v.push(Act::Snap(c, Rep::InFlight));
+            v.push(Act::Snap(c, Rep::CancelInFlight(None)));
+            for t in [1u8, 3u8] {
+                if s.cfg[c][(t - 1) as usize] < QTY {
+                    v.push(Act::Snap(c, Rep::CancelInFlight(Some(t))));
+                }
+            }
             for t in 1..=3u8 {
                 v.push(Act::Snap(c, Rep::Open(t)));
             }
@@ -668,7 +706,7 @@ pub fn run(ctx: &Ctx) -> Outcome {
         assumptions: vec![
             "client order ids are unique per order (OpenSent only offered while the id is untracked)".into(),
             "exchange reports of one order follow a consistent timeline: fill level non-decreasing in exchange time (all 10 timelines over t in {1,2,3}, fill in {0,1,2} of quantity 2); any report may be delivered late, repeatedly, out of order".into(),
-            "CancelInFlight order snapshots (an engine-internal marker) are not part of the report alphabet".into(),
+            "CancelInFlight order snapshots are in the alphabet with a permissive oracle (order stays tracked, held data never older, nothing else required)".into(),
         ],
     }
 }
